@@ -24,6 +24,7 @@ EXPLANATION = (
     "key into the Column / Index / SeriesSchema constructors, and coerce=True keeps inferred dtypes reachable; (R6) the "
     "bound-consistency guard that serialisation runs (parse_checks) rejects the inclusive pair only for min > max, strictly "
     "- tight bounds of constant data are equal. (R7) definite assignment: no function of schema inference / statistics reads a local that a branch-only path from its entry leaves unassigned (CFG may-analysis, optimistic about try bodies and loop bodies, correlated guards pruned) - an UnboundLocalError there would escape infer_schema. " 
+    " (R8) an entry that a statistics producer may set to None (`columns` of a column-less frame) is tested before the inference code iterates it. " 
     "NOT "
     "decided: numeric tightness (float rounding of large integers), NaT/inf, mixed-object inference, survival through "
     "serialisation on data."
@@ -393,6 +394,55 @@ def r6_equal_bounds_serialise(ctx):
         ctx.ob("R6", f, "no bound-consistency guard in parse_checks", True, "nothing can reject equal bounds")
 
 
+def r8_optional_statistics_entries(ctx):
+    """The statistics producers write `None` for an entry that has nothing to describe (`"columns": stats if stats else None`
+    for a frame without columns, `"checks": None`).  A consumer that iterates / subscripts such an entry has to test it for
+    None first (or the producer must not write None): infer_schema(pd.DataFrame(index=[...])) otherwise raises
+    AttributeError: 'NoneType' object has no attribute 'items' instead of inferring the (column-less) schema."""
+    from ..cfg import cfg_of
+    from ..util import enclosing_stmt
+    st = ctx.ix.module(STATS)
+    inf = ctx.ix.module(INFER)
+    optional = {}   # (producer name, key) -> node
+    from .c12 import _returned_dicts as _rd
+    for f in st.all_functions:
+        for d in _rd(f):
+            for k, v in zip(d.keys, d.values):
+                if isinstance(k, ast.Constant) and isinstance(v, ast.IfExp) and any(isinstance(b, ast.Constant) and b.value is None for b in (v.body, v.orelse)):
+                    optional[(f.name, k.value)] = v
+    n = 0
+    for g in inf.all_functions:
+        holders = {t.id: c for s_ in walk_no_nested(g.node) if isinstance(s_, ast.Assign) and isinstance(s_.value, ast.Call)
+                   for t in s_.targets if isinstance(t, ast.Name) for c in [callee_last(s_.value)] if any(p == c for p, _ in optional)}
+        if not holders:
+            continue
+        cfg = cfg_of(g.node)
+        for x in ast.walk(g.node):
+            if isinstance(x, ast.Subscript) and isinstance(x.value, ast.Name) and x.value.id in holders and isinstance(x.slice, ast.Constant) \
+                    and (holders[x.value.id], x.slice.value) in optional:
+                par = getattr(x, "_parent", None)
+                deref = isinstance(par, ast.Attribute) or (isinstance(par, ast.Subscript) and par.value is x) or \
+                    (isinstance(par, (ast.For, ast.comprehension)) and par.iter is x)
+                if not deref:
+                    continue
+                n += 1
+                node = cfg.node_of(enclosing_stmt(x))
+                guards = [txt(t) for t, _ in (cfg.guards(node.id) if node is not None else [])]
+                p2 = par
+                while p2 is not None and not isinstance(p2, ast.stmt):
+                    if isinstance(p2, ast.IfExp):
+                        guards.append(txt(p2.test))
+                    if isinstance(p2, ast.BoolOp):
+                        guards += [txt(v) for v in p2.values]
+                    p2 = getattr(p2, "_parent", None)
+                ok = any(txt(x) in g_ and ("None" in g_ or g_.strip() == txt(x) or "not " in g_) for g_ in guards)
+                ctx.ob("R8", g, f"{g.name}: `{txt(x)}` may be None (producer {holders[x.value.id]}) and is tested before use", ok,
+                       f"guarded: {guards}" if ok else
+                       f"`{txt(par)[:60]}` dereferences an entry that {holders[x.value.id]} sets to None for a frame without columns: infer_schema(pd.DataFrame(index=[1, 2])) "
+                       "raises AttributeError instead of returning the column-less schema that accepts the frame", g.loc(x))
+    ctx.stats["optional_statistics_dereferences"] = n
+
+
 def run(ctx):
     from ..defassign import check_modules
     check_modules(ctx, "R7", ('pandera/schema_inference/pandas.py', 'pandera/schema_statistics/pandas.py'), "escapes infer_schema")
@@ -402,4 +452,5 @@ def run(ctx):
     r3_parse(ctx)
     r4_forwarding(ctx)
     r5_views(ctx)
+    r8_optional_statistics_entries(ctx)
     ctx.assume("Series.min()/max()/isna()/cat.categories have their documented meaning")
